@@ -13,7 +13,7 @@ SPEC = {
                      "schema derivation by reflection harness/serixgen/derive.go (mirrors the TypeSettings merge of serix with the public accessors)",
                      "Go toolchain, compiled Lean driver"],
     "modelled": ["serix API.Encode/API.Decode for bool, (u)int8..64, float32/64 (bit patterns), string, []byte, byte arrays, *big.Int, time.Time, slices, arrays, maps, structs (embedded, optional, inlined), pointers, registered interfaces; all length prefix widths; ArrayRules min/max, no-duplicates, lexical order, at-most-one-of-each-type (byte/uint32), must-occur, lexicalOrdering auto-sort",
-                 "NOT modelled: user supplied Serializable/Deserializable implementations and syntactic validators (parameters of the API), error texts (one outcome `err`), float/pointer/interface map keys, encodings of 4 GiB and more (uint32 optional marker), ds.Set / SerializableOrderedMap Encode/Decode (left to C11)"],
+                 "custom Serializable/Deserializable types as Ty.custom (object code + the type's own self-delimiting encoding n::payload, the value being that encoding; other custom codecs are parameters); NOT modelled: syntactic validators (parameters of the API), error texts (one outcome `err`), float/pointer/interface map keys, encodings of 4 GiB and more (uint32 optional marker), ds.Set / SerializableOrderedMap Encode/Decode (left to C11)"],
     "assumptions": ["values are identified up to nil/empty slices and maps (Decode returns empty, never nil, collections)",
                     "C01_decode_encode assumes Ty.wf (decidable; the harness recomputes it for every derived schema and the Lean driver must agree) and an encoding shorter than 2^32 bytes"],
     "manifest": {
